@@ -685,6 +685,7 @@ func genC10(c *Ctx) {
 		base = append(base, w.t)
 	}
 	base = append(base, or(leaf("MIT"), leaf("LicenseRef-x")), or(leaf("LicenseRef-x"), leaf("MIT")))
+	base = append(base, confusableTrees()...)
 	for _, t := range base {
 		K := 2
 		if c.thorough() {
